@@ -9,7 +9,7 @@ SPEC = os.path.join(VERIF, 'spec')
 HARNESS = os.path.join(VERIF, 'harness')
 WORK = os.path.join(VERIF, 'work')
 EVID = os.path.join(VERIF, 'evidence')
-JAVA_OPTS = '-Xss1g'
+JAVA_OPTS = '-Xss64m'
 
 
 class ToolError(Exception):
@@ -142,14 +142,14 @@ def tla_unescape(s):
     return s.replace('\\"', '"').replace('\\\\', '\\')
 
 
-def run_tlc(module, cfg, wd, workers=8, timeout=1800, extra_env=None, deque=False, extra_args=(), xmx='8g'):
+def run_tlc(module, cfg, wd, workers=8, timeout=1800, extra_env=None, deque=False, extra_args=(), xmx='6g'):
     """runs TLC on spec/<module>.tla with config file cfg; returns (stdout, generated, distinct).
     Raises ToolError on parse errors / timeouts; invariant violations are returned in stdout."""
     meta = os.path.join(wd, 'tlc.' + os.path.basename(cfg) + '.%d' % os.getpid())
     shutil.rmtree(meta, ignore_errors=True)
     cmd = ['tlc', '-workers', str(workers), '-metadir', meta, '-cleanup', '-noGenerateSpecTE', '-config', cfg] + list(extra_args) + [module + '.tla']
     env = _tlc_env(extra_env, deque)
-    env['JAVA_TOOL_OPTIONS'] += ' -XX:ParallelGCThreads=%d -Xmx%s' % (max(2, workers), xmx)
+    env['JAVA_TOOL_OPTIONS'] += ' -XX:ParallelGCThreads=%d -Xmx%s' % (max(1, workers // 2), xmx)
     t0 = time.time()
     try:
         p = subprocess.run(cmd, cwd=SPEC, env=env, stdout=subprocess.PIPE, stderr=subprocess.STDOUT, text=True, timeout=timeout)
@@ -224,7 +224,7 @@ def validate_trace(module, trace, wd, constants, shards=8, timeout=1800, group_k
         meta = os.path.join(wd, 'tlc.shard%d.%d' % (i, os.getpid()))
         shutil.rmtree(meta, ignore_errors=True)
         env = _tlc_env({'TRACE': f}, deque=True)
-        env['JAVA_TOOL_OPTIONS'] += ' -Xmx3g -XX:ParallelGCThreads=2'
+        env['JAVA_TOOL_OPTIONS'] += ' -Xmx2g -XX:ParallelGCThreads=1 -XX:CICompilerCount=2'
         cmd = ['tlc', '-workers', '1', '-metadir', meta, '-cleanup', '-noGenerateSpecTE', '-config', cfg, module + '.tla']
         procs.append((subprocess.Popen(cmd, cwd=SPEC, env=env, stdout=subprocess.PIPE, stderr=subprocess.STDOUT, text=True), f, meta, len(part)))
     res = {'events': 0, 'bad': [], 'known': set(), 'generated': 0, 'distinct': 0}
